@@ -217,9 +217,11 @@ func vsGenSpk(r *rand.Rand) (bool, []int) {
 func vsGenHist(r *rand.Rand) vsHist {
 	h := vsHist{Ignore: r.Intn(4) == 0}
 	h.Disabled, h.Speakers = vsGenSpk(r)
+	var lastNode [3]*vsNode
 	for i := 0; i < 3; i++ {
 		if r.Intn(7) != 0 {
-			h.Evs = append(h.Evs, vsEv{Op: "node", Node: vsGenNode(r, i)})
+			lastNode[i] = vsGenNode(r, i)
+			h.Evs = append(h.Evs, vsEv{Op: "node", Node: lastNode[i]})
 		}
 	}
 	if r.Intn(10) != 0 {
@@ -234,11 +236,18 @@ func vsGenHist(r *rand.Rand) vsHist {
 			var s *vsSvc
 			if last[k] != nil && r.Intn(2) == 0 { // small change of an existing service
 				c := *last[k]
-				switch r.Intn(3) {
+				switch r.Intn(6) {
 				case 0:
 					c.Eps = vsGenSvc(r).Eps
 				case 1:
 					c.Local = !c.Local
+				case 2:
+					c.LB = !c.LB // stops / starts being a LoadBalancer
+				case 3:
+					c.IPs = []string{} // loses its address
+					c.Invalid = false
+				case 4:
+					c.Eps = nil // loses its endpoints
 				default:
 					c.IPs = vsSvcIPs[r.Intn(len(vsSvcIPs))]
 					c.Invalid = false
@@ -256,7 +265,22 @@ func vsGenHist(r *rand.Rand) vsHist {
 		case x < 72:
 			h.Evs = append(h.Evs, vsEv{Op: "cfg", Cfg: vsGenCfg(r)})
 		case x < 88:
-			h.Evs = append(h.Evs, vsEv{Op: "node", Node: vsGenNode(r, r.Intn(3))})
+			idx := r.Intn(3)
+			if r.Intn(2) == 0 {
+				idx = 0
+			}
+			nd := vsGenNode(r, idx)
+			if lastNode[idx] != nil && r.Intn(2) == 0 { // flip one flag of a known node
+				c := *lastNode[idx]
+				if r.Intn(2) == 0 {
+					c.Unavail = !c.Unavail
+				} else {
+					c.Excl = !c.Excl
+				}
+				nd = &c
+			}
+			lastNode[idx] = nd
+			h.Evs = append(h.Evs, vsEv{Op: "node", Node: nd})
 		case x < 96:
 			d, l := vsGenSpk(r)
 			h.Evs = append(h.Evs, vsEv{Op: "spk", Disabled: d, Speakers: l})
@@ -509,6 +533,30 @@ type vsWorld struct {
 	staleBy int
 }
 
+// some pool of the configuration contains all the addresses
+func vsHasPool(c *vsCfg, ips []string) bool {
+	for _, pl := range c.Pools {
+		all := len(ips) > 0
+		for _, s := range ips {
+			ip := net.ParseIP(s)
+			in := false
+			for _, cs := range pl.CIDRs {
+				_, n, _ := net.ParseCIDR(cs)
+				if ip != nil && n.Contains(ip) {
+					in = true
+				}
+			}
+			if !in {
+				all = false
+			}
+		}
+		if all {
+			return true
+		}
+	}
+	return false
+}
+
 func vsSetBalancer(k *vsCtl, name int, s *vsSvc) {
 	lg := log.NewNopLogger()
 	var st controllers.SyncState
@@ -551,9 +599,7 @@ func vsFresh(h vsHist, k *vsCtl, w *vsWorld) vsObs {
 		f.c.SetNode(lg, vsBuildNode(w.nodes[i]))
 	}
 	if w.cfg != nil {
-		if st := f.c.SetConfig(lg, vsBuildCfg(w.cfg)); st != controllers.SyncStateReprocessAll {
-			panic(fmt.Sprintf("fresh controller refuses the accepted configuration: %v", st))
-		}
+		f.c.SetConfig(lg, vsBuildCfg(w.cfg))
 	}
 	vsResync(f, &vsWorld{K: w.K}, nil)
 	return vsObserve(f)
@@ -677,16 +723,35 @@ func vsRunHistory(out *vOut, id int, kind string, h vsHist, r *rand.Rand) {
 			vsSetBalancer(k, e.Name, nil)
 			out.Stat("ev_del", 1)
 		case "cfg":
-			st := k.c.SetConfig(lg, vsBuildCfg(e.Cfg))
+			// does the new configuration orphan an address of a Service this speaker announces?
+			orphan := false
+			for n := 0; n < 4; n++ {
+				if (k.c.announced[config.BGP][vbSvcName(n)] || k.c.announced[config.Layer2][vbSvcName(n)]) && w.K[n] != nil && !vsHasPool(e.Cfg, w.K[n].IPs) {
+					orphan = true
+				}
+			}
+			if orphan {
+				out.Stat("ev_cfg_orphaning", 1)
+			}
+			built := vsBuildCfg(e.Cfg)
+			st := k.c.SetConfig(lg, built)
+			if k.c.config == built {
+				w.cfg = e.Cfg
+			}
 			switch st {
 			case controllers.SyncStateReprocessAll:
-				w.cfg = e.Cfg
 				vsResync(k, w, r)
 				out.Stat("ev_cfg_accepted", 1)
 			case controllers.SyncStateError:
 				out.Stat("ev_cfg_refused", 1)
+				if !orphan && !failed {
+					failed = true
+					out.Fail("speaker-config-refused-without-orphan",
+						fmt.Sprintf("event %d: the configuration was refused although it orphans no address of an announced Service (the speaker stays on the old configuration)", len(done)),
+						map[string]any{"history": vsHist{Ignore: h.Ignore, Disabled: h.Disabled, Speakers: h.Speakers, Evs: append(append([]vsEv{}, done...), e)}})
+				}
 			default:
-				panic(fmt.Sprintf("SetConfig returned %v", st))
+				out.Stat("ev_cfg_other_return", 1) // no re-sync requested: the comparison with a fresh speaker decides
 			}
 		case "node":
 			_, known := w.nodes[e.Node.Idx]
@@ -704,7 +769,7 @@ func vsRunHistory(out *vOut, id int, kind string, h vsHist, r *rand.Rand) {
 				}
 				out.Stat("ev_node_plain", 1)
 			default:
-				panic(fmt.Sprintf("SetNode returned %v", st))
+				out.Stat("ev_node_other_return", 1)
 			}
 		case "spk":
 			sl.disabled, sl.nodes = e.Disabled, append([]int(nil), e.Speakers...)
@@ -842,6 +907,18 @@ func TestVerifSpk(t *testing.T) {
 	}}
 	id++
 	vsRunHistory(out, id, "corpus-first-node-event", f19, r)
+	// a configuration that orphans an announced address is refused, then the address changes and it is accepted
+	refuse := vsHist{Speakers: []int{0}, Evs: []vsEv{
+		{Op: "node", Node: &vsNode{Idx: 0}},
+		{Op: "cfg", Cfg: &vsCfg{Pools: []vsPool{{CIDRs: []string{"10.20.30.0/24"}, L2: all}}}},
+		{Op: "svc", Name: 0, Svc: &vsSvc{LB: true, IPs: []string{"10.20.30.200"}, Eps: eps}},
+		{Op: "cfg", Cfg: &vsCfg{Pools: []vsPool{{CIDRs: []string{"10.20.30.0/25"}, L2: all}}}},
+		{Op: "svc", Name: 0, Svc: &vsSvc{LB: true, IPs: []string{"10.20.30.1"}, Eps: eps}},
+		{Op: "cfg", Cfg: &vsCfg{Pools: []vsPool{{CIDRs: []string{"10.20.30.0/25"}, L2: all}}}},
+		{Op: "svc", Name: 0, Svc: &vsSvc{LB: false, IPs: []string{"10.20.30.1"}, Eps: eps}},
+	}}
+	id++
+	vsRunHistory(out, id, "corpus-refused-config", refuse, r)
 	for _, p := range vbCorpus("C09") {
 		var h vsHist
 		if json.Unmarshal(p, &h) == nil && len(h.Evs) > 0 {
